@@ -4,6 +4,7 @@ package election
 
 import (
 	"context"
+	"encoding/json"
 	"time"
 
 	"k8s.io/client-go/tools/leaderelection/resourcelock"
@@ -109,6 +110,76 @@ func VerifC14Lock() {
 				zzverif.Cover("update-refused")
 			}
 		}
+	}
+	zzverif.Cover("done")
+}
+
+// VerifC14Concurrent: two candidates act at the same time, interleaved inside their calls at the
+// engine's operations (<= 2 scheduling delays), on each engine: both find no record and both
+// Create — at most one succeeds; or both have read the same record and both Update — at most one
+// succeeds, and the stored record is the winner's.
+func VerifC14Concurrent() {
+	var s storage.KvStorage
+	switch zzverif.Choose("engine", 4) {
+	case 0:
+		cs := zzmodel.NewStore()
+		cs.BareCASError = zzverif.Bool("bareCAS")
+		cs.Yield = zzverif.YieldAt
+		s = cs
+	case 1:
+		s = memkv.NewKvStorage()
+	case 2:
+		bd, err := badgerkv.NewKvStorage(badgerkv.Config{Dir: zzverif.TempDir()})
+		zzverif.Assert(err == nil, "badger opens")
+		defer bd.Close()
+		s = bd
+	default:
+		s = zzc11.NewMockTiKV()
+	}
+	ids := []string{"a", "b"}
+	locks := []*resourceLock{vNewLock(s, ids[0]), vNewLock(s, ids[1])}
+	update := zzverif.Choose("bothUpdate", 2) == 1
+	if update {
+		// a record both candidates have read (the lease of a third one ran out)
+		zzverif.Assert(vNewLock(s, "c").Create(resourcelock.LeaderElectionRecord{HolderIdentity: "c", LeaseDurationSeconds: 8}) == nil, "setup: record exists")
+		for _, l := range locks {
+			_, err := l.Get()
+			zzverif.Assert(err == nil, "setup: both candidates read the record")
+			zzverif.Assume(l.tso != 0) // an engine clock never reads 0 (Update takes 0 for "not initialised")
+		}
+	}
+	errs := make([]error, 2)
+	done := make(chan struct{}, 2)
+	zzverif.ExploreSchedules(zzverif.Param("preempt", 2))
+	for i := range locks {
+		i := i
+		zzverif.Go("cand"+ids[i], func() {
+			rec := resourcelock.LeaderElectionRecord{HolderIdentity: ids[i], LeaseDurationSeconds: 8, LeaderTransitions: 1 + i}
+			if update {
+				errs[i] = locks[i].Update(rec)
+			} else {
+				errs[i] = locks[i].Create(rec)
+			}
+			done <- struct{}{}
+		})
+	}
+	<-done
+	<-done
+	zzverif.StopExploring()
+	zzverif.Assert(errs[0] != nil || errs[1] != nil, "two candidates acting on the same observed state never both succeed")
+	zzverif.Assert(errs[0] == nil || errs[1] == nil, "one of the two candidates succeeds")
+	got, present := vRawGet(s, getElectionKey("/r"))
+	zzverif.Assert(present, "the lock record is stored")
+	for i := range locks {
+		if errs[i] == nil {
+			var rec resourcelock.LeaderElectionRecord
+			zzverif.Assert(json.Unmarshal(got, &rec) == nil && rec.HolderIdentity == ids[i], "the stored record is the winner's")
+		}
+	}
+	if update {
+		zzverif.Cover("both-update")
+	} else {
+		zzverif.Cover("both-create")
 	}
 	zzverif.Cover("done")
 }
